@@ -195,8 +195,8 @@ def mixed_key_indices(vals):
         if depth > 6:
             return False
         if isinstance(v, dict):
-            if len({type(k) for k in v}) > 1:
-                return True
+            if len({type(k) for k in v}) > 1 or any(isinstance(k, tuple) for k in v):
+                return True          # (tuple keys too: whether two tuples compare depends on their elements)
             return any(has(x, depth + 1) for x in v.values())
         if isinstance(v, (list, tuple)):
             return any(has(x, depth + 1) for x in v)
